@@ -46,8 +46,12 @@ Record full_out := mkfull {
 }.
 
 (* mem = Some (best_point, worst_point) when BOTH are given (the code tests
-   `best_point is not None and worst_point is not None`), pext = extreme_points *)
-Definition nsga3_full (log : bool) (pop : list ind) (k : nat) (refs : list (list Q))
+   `best_point is not None and worst_point is not None`), pext = extreme_points.
+   nsga3_full_gen is parameterised by the intercept function only so that the correspondence can
+   replay a boundary decision of the float code (Corr/C07.v); the model is nsga3_full. *)
+Definition icpt_fun := list (list Q) -> list Q -> list Q -> list Q -> icpt_branch * list Q.
+
+Definition nsga3_full_gen (icptf : icpt_fun) (log : bool) (pop : list ind) (k : nat) (refs : list (list Q))
                       (mem : option (list Z * list Z)) (pext : option (list (list Z)))
                       (draws : list (list nat)) : option full_out :=
   match sort_fronts log pop k with
@@ -58,7 +62,7 @@ Definition nsga3_full (log : bool) (pop : list ind) (k : nat) (refs : list (list
       let worst := update_worst (option_map snd mem) fits in
       let ext := find_extreme_points fits best pext in
       let front_worst := update_worst None fits in
-      let '(br, icpt) := find_intercepts_b (map qz ext) (qz best) (qz worst) (qz front_worst) in
+      let '(br, icpt) := icptf (map qz ext) (qz best) (qz worst) (qz front_worst) in
       let fitsq := map qz fits in
       let niches := associate q_ops np_eps fitsq refs (qz best) icpt in
       let d2 := assoc_d2 np_eps fitsq refs (qz best) icpt niches in
@@ -66,3 +70,5 @@ Definition nsga3_full (log : bool) (pop : list ind) (k : nat) (refs : list (list
       Some (mkfull fronts best worst ext br icpt niches d2
                    (nsga3_core q_ltb 0%Q fronts k (length refs) niches d2 draws))
   end.
+
+Definition nsga3_full := nsga3_full_gen find_intercepts_b.
